@@ -4,6 +4,10 @@ from core import Job
 from . import common as c
 
 
+FRAC_DEC = [("u8", 8, [8, 5], 4), ("u16", 16, [16, 9, 7], 5), ("u32", 32, [32, 17, 15], 6), ("u64", 64, [64, 33, 31], 6), ("u128", 128, [128, 65, 63], 6)]
+INT_DEC = [("u8", 3), ("u16", 5)]   # wider words: 10..39 dependent divisions by ten, no verdict in 8 min
+
+
 def plan(tier, seed, kf_ids):
     rnd = random.Random(seed + 909)
     q = tier == "quick"
@@ -41,6 +45,26 @@ def plan(tier, seed, kf_ids):
             jobs.append(Job(name, tmpl % (name, t, i, f), "for every value of %s: %s" % (al, desc), timeout=900, inst=al,
                             bounds="all 65536 values", mem_gb=20))
             jobs[-1].prio = 9    # 4-6 min: decided last, when the run budget allows
+    # ---- digit-generation kernels through the verif_display_kernels hook: every word size
+    for u in ("u8", "u16", "u32", "u64", "u128"):
+        nm = "c09_kernel_mul10_%s" % u
+        jobs.append(Job(nm, "c09_mul10!(%s, mul10_%s, %s);" % (nm, u, u), "mul10_assign of %s for every x: x*10 = digit*2^W + low" % u, timeout=600,
+                        inst="Mul10 for " + u, bounds="all values of the word"))
+        jobs[-1].prio = 1
+    for (u, w, nbl, nmax) in FRAC_DEC:
+        for nb in nbl:
+            nm = "c09_kernel_fracdec_%s_n%d" % (u, nb)
+            jobs.append(Job(nm, "c09_frac_dec!(%s, frac_dec_%s, %s, %d, %d, %d);" % (nm, u, u, nb, nmax, nmax + 3),
+                            "write_frac_dec of %s at %d fractional bits, requested precision 1..=%d, for every fraction: exact digits, remainder ordering, "
+                            "cut-off only by the close-to-zero rule" % (u, nb, nmax), timeout=600, inst="write_frac_dec for " + u,
+                            bounds="all fraction registers; 1..=%d digits" % nmax))
+            jobs[-1].prio = 8 if (u, nb) == ("u128", 128) else 2
+    for (u, nd) in INT_DEC:
+        nm = "c09_kernel_intdec_%s_d%d" % (u, nd)
+        jobs.append(Job(nm, "c09_int_dec!(%s, int_dec_%s, %s, %d, %d);" % (nm, u, u, nd, nd + 3),
+                        "write_int_dec of %s with %d digits allocated, every integer below 10^%d: the digits are its decimal expansion" % (u, nd, nd),
+                        timeout=600, inst="write_int_dec for " + u, bounds="all integers below 10^%d" % nd))
+        jobs[-1].prio = 2
     for k in kf_ids:
         jobs.append(Job("kfw_" + k, "", "witness of known finding %s (concrete operands)" % k, timeout=900, kf=k,
                         inst="witness", bounds="concrete operands"))
